@@ -329,6 +329,11 @@ def assigned_keys(n):
                 if v:
                     out.add(v)
                     out.add(v + '.*')
+            if op in ('[]', '*', '->', '==', '!=', '<', '>', '<=', '>=', '<=>') and len(x['inner']) > 1 and 'std::' in (dtype(x['inner'][1]) or ''):
+                # element access / comparison of a standard container does not modify the container
+                # itself (a write THROUGH the returned reference is an assignment node of its own)
+                _args_may_modify(x['inner'][2:], out)
+                continue
             _args_may_modify(x['inner'][1:], out)
     return out
 
